@@ -102,8 +102,29 @@ def mk_async(chan, sends, resume, parked=0, pre=0):
     return Case("async chan=%s sends=%d resume=%d parked=%d pre=%d ; S" % (chan, sends, resume, parked, pre), None,
                 {"profile": "async", "chan": chan, "sends": sends, "resume": resume, "parked": parked, "pre": pre})
 
+SAME_THREAD_KINDS = ["uni_move_crossbeam", "uni_zero_copy_atomic", "uni_zero_copy_full_sync"]    # (the movable atomic / full-sync kinds: known finding F12)
+def mk_same_thread(chan):
+    """one thread of control, as on a current-thread runtime: while the send is suspended the buffer is filled up, the setter is released, and
+    the suspended send is polled BEFORE anything was consumed - it must give the thread back; then the stream is drained and the send finishes"""
+    return Case("async chan=%s sends=0 resume=1 same=1 ; S" % chan, None, {"profile": "async_same", "chan": chan})
+
+def oracle_same_thread(case, recs):
+    hits = []
+    r = {c: [x for x in recs if x[0] == "ret" and x[2] == c] for c in (44, 45, 46, 48, 49)}
+    if r[46]: return hits
+    if not r[48]: return [(None, "the harness produced no result")]
+    if not r[48][0][3]: return [(None, "plain sends did not return within 1.5 s while a send_with_async was suspended")]
+    n_ok = r[48][0][4]
+    if r[49][0][3] == 2: return [(None, "the resumed send_with_async did not give the thread back when it found the buffer full (its poll did not return within 1.5 s): on a current-thread runtime no consumer could ever run")]
+    res = r[44][0][3] if r[44] else 0
+    got = [x[3] for x in r[45]]
+    if res != 1: hits.append((None, "the resumed send_with_async did not complete with Ok although the consumer drained the buffer (code %d)" % res))
+    elif sorted(got) != sorted([100 + j for j in range(n_ok)] + [7]): hits.append((None, "accepted %d plain events + the suspended one, delivered %s" % (n_ok, got)))
+    return hits
+
 def parse_async_line(line):
     params = dict(kv.split("=") for kv in line.split(";")[0].split()[1:])
+    if params.get("same") == "1": return mk_same_thread(params["chan"])
     return mk_async(params["chan"], int(params["sends"]), int(params["resume"]), int(params.get("parked", 0)), int(params.get("pre", 0)))
 
 def oracle_async(case, recs):
